@@ -152,6 +152,22 @@ ReadOK(c, exc, R, ncount, nbad) ==
 Holds(c, exc, R, ncount, nbad) ==
     IF c.op = "write" THEN WriteOK(c, exc, R, ncount, nbad) ELSE ReadOK(c, exc, R, ncount, nbad)
 
+(* History dimension.  A caller keeps one collection of ids (a list, tuple, set, frozenset, dict
+   view, ...) and hands the same object to call after call.  The outcome of every call depends only
+   on the ids as the CALLER wrote them and on the accessory's reply to that call - whatever happened
+   in earlier calls.  Two things an observation of a call therefore also carries:
+     collSame      the caller's collection has the same content after the call as before it
+     asked         the characteristics the accessory was asked for in this call (when the harness
+                   saw exactly one request: askedChecked)
+   A call that changes the collection is reported as what it is: the next call re-using it asks
+   for other ids than the caller requested. *)
+CollectionUntouched(collSame) == collSame
+AskedAsRequested(c, asked, askedChecked) == askedChecked => RangeOf(asked) = Requested(c)
+CallOK(c, o) ==
+    /\ Holds(c, o.exc, RangeOf(o.res), o.ncount, o.nbad)
+    /\ CollectionUntouched(o.collSame)
+    /\ AskedAsRequested(c, o.asked, o.askedChecked)
+
 \* ------------------------------------------------------------------ bounded domains
 CONSTANTS MaxN,          \* request sizes 1..MaxN
           MaxJunk        \* length of the entry lists with duplicates / malformed entries
